@@ -122,7 +122,7 @@ def saslname_decode(s):
     while i < len(s):
         c = s[i]
         if c == 0x2C:
-            raise Reject("saslname contains ','")
+            raise Reject("scram-saslname: n= contains ','")
         if c == 0x3D:
             esc = s[i:i + 3]
             if esc == b"=2C":
@@ -130,7 +130,7 @@ def saslname_decode(s):
             elif esc == b"=3D":
                 out.append(0x3D)
             else:
-                raise Reject("saslname contains a bare '='")
+                raise Reject("scram-saslname: n= contains a bare '='")
             i += 3
             continue
         out.append(c)
@@ -142,15 +142,15 @@ def parse_client_first(msg):
     """-> (gs2 header bytes, cbflag, cbname, username, cnonce, bare)"""
     m = re.match(rb"(n|y|p=([A-Za-z0-9.\-]+)),(a=[^,]*)?,", msg, re.S)
     if not m:
-        raise Reject("client-first: bad gs2-header")
+        raise Reject("scram-gs2: bad gs2-header")
     header = m.group(0)
     bare = msg[len(header):]
     m2 = re.fullmatch(rb"n=([^,]*),r=([\x21-\x2b\x2d-\x7e]+)((?:,[A-Za-z]=[^,]*)*)", bare, re.S)
     if not m2:
-        raise Reject("client-first-bare does not match n=saslname,r=printable")
+        raise Reject("scram-saslname: client-first-bare does not match n=saslname,r=printable")
     user = saslname_decode(m2.group(1))
     if len(user) == 0:
-        raise Reject("empty user name")
+        raise Reject("scram-saslname: empty user name")
     flag = msg[:1]
     return header, flag, m.group(2), user, m2.group(2), bare
 
@@ -172,11 +172,11 @@ def parse_server_first(sf):
 def scram_verify(hname, bare, server_first, client_final, password, salt, i, snonce, expect_cbind):
     m = re.fullmatch(rb"c=([A-Za-z0-9+/]+={0,2}),r=([\x21-\x2b\x2d-\x7e]+),p=([A-Za-z0-9+/]+={0,2})", client_final, re.S)
     if not m:
-        raise Reject("client-final does not match c=…,r=…,p=…")
+        raise Reject("scram-final-grammar: client-final does not match c=…,r=…,p=…")
     if base64.b64decode(m.group(1), validate=True) != expect_cbind:
-        raise Reject("c= is not base64(gs2-header || cbind-data)")
+        raise Reject("scram-cbind: c= is not base64(gs2-header || cbind-data)")
     if m.group(2) != snonce:
-        raise Reject("r= does not echo the server nonce")
+        raise Reject("scram-nonce: r= does not echo the server nonce")
     proof = base64.b64decode(m.group(3), validate=True)
     without_proof = client_final[:client_final.rindex(b",p=")]
     auth_message = bare + b"," + server_first + b"," + without_proof
@@ -185,9 +185,9 @@ def scram_verify(hname, bare, server_first, client_final, password, salt, i, sno
     stored_key = hashlib.new(hname, client_key).digest()
     signature = pyhmac.new(stored_key, auth_message, hname).digest()
     if len(proof) != len(signature):
-        raise Reject("proof has the wrong length")
+        raise Reject("scram-proof: proof has the wrong length")
     if hashlib.new(hname, xor(proof, signature)).digest() != stored_key:
-        raise Reject("ClientProof does not verify against StoredKey")
+        raise Reject("scram-proof: ClientProof does not verify against StoredKey")
 
 
 # ---------------------------------------------------------------------------------------------
@@ -204,7 +204,7 @@ def parse_digest_directives(s):
     while i < n:
         m = re.compile(TOKEN).match(s, i)
         if not m or m.end() >= n or s[m.end()] != 0x3D:
-            raise Reject("directive does not start with token '='")
+            raise Reject("grammar: directive does not start with token '='")
         key = m.group(0).lower()
         i = m.end() + 1
         if i < n and s[i] == 0x22:
@@ -212,11 +212,11 @@ def parse_digest_directives(s):
             val = bytearray()
             while True:
                 if i >= n:
-                    raise Reject("unterminated quoted-string")
+                    raise Reject("grammar: unterminated quoted-string")
                 c = s[i]
                 if c == 0x5C:
                     if i + 1 >= n:
-                        raise Reject("dangling backslash")
+                        raise Reject("grammar: dangling backslash")
                     val.append(s[i + 1])
                     i += 2
                 elif c == 0x22:
@@ -229,15 +229,15 @@ def parse_digest_directives(s):
         else:
             m = re.compile(TOKEN).match(s, i)
             if not m:
-                raise Reject("empty or malformed token value for %s" % key.decode())
+                raise Reject(("charset" if key == b"charset" else "grammar") + ": empty or malformed token value for %s" % key.decode())
             val = m.group(0)
             i = m.end()
         if key in res:
-            raise Reject("directive %s twice" % key.decode())
+            raise Reject("grammar: directive %s twice" % key.decode())
         res[key] = val
         if i < n:
             if s[i] != 0x2C:
-                raise Reject("junk after directive %s" % key.decode())
+                raise Reject(("qop" if key == b"qop" else "grammar") + ": junk after directive %s" % key.decode())
             i += 1
     return res
 
@@ -246,37 +246,37 @@ def digest_verify(resp, user, password, domain, realms, nonce, qops, charset, cn
     d = parse_digest_directives(resp)
     for k in (b"username", b"nonce", b"cnonce", b"nc", b"digest-uri", b"response"):
         if k not in d:
-            raise Reject("missing %s" % k.decode())
+            raise Reject("grammar: missing %s" % k.decode())
     if d[b"username"] != user:
-        raise Reject("username is not the JID node")
+        raise Reject("username: username is not the JID node")
     if d[b"nonce"] != nonce:
-        raise Reject("nonce not echoed")
+        raise Reject("nonce: nonce not echoed")
     if d[b"cnonce"] != cnonce_expected:
-        raise Reject("cnonce is not HEX(random bytes)")
+        raise Reject("nonce: cnonce is not HEX(random bytes)")
     if d[b"nc"] != b"00000001":
-        raise Reject("nc")
+        raise Reject("grammar: nc")
     qop = d.get(b"qop", b"auth")
     if qop not in (qops or [b"auth"]):
-        raise Reject("qop is not one of the offered alternatives")
+        raise Reject("qop: qop is not one of the offered alternatives")
     if qop != b"auth":
-        raise Reject("qop that the client does not implement")
+        raise Reject("qop: qop that the client does not implement")
     if d[b"digest-uri"] != b"xmpp/" + domain:
-        raise Reject("digest-uri")
+        raise Reject("grammar: digest-uri")
     realm = d.get(b"realm", b"")
     if realms and realm not in realms:
-        raise Reject("realm is not one of the offered ones")
+        raise Reject("realm: realm is not one of the offered ones")
     if b"charset" in d:
         if not charset or d[b"charset"] != b"utf-8":
-            raise Reject("charset directive not allowed / wrong")
+            raise Reject("charset: charset directive not allowed / wrong")
     elif charset:
-        raise Reject("charset=utf-8 offered but not sent")
+        raise Reject("charset: charset=utf-8 offered but not sent")
     a1 = hashlib.md5(user + b":" + realm + b":" + password).digest() + b":" + nonce + b":" + d[b"cnonce"]
     a2 = b"AUTHENTICATE:" + d[b"digest-uri"]
     ha1 = hashlib.md5(a1).hexdigest().encode()
     ha2 = hashlib.md5(a2).hexdigest().encode()
     want = hashlib.md5(ha1 + b":" + nonce + b":" + d[b"nc"] + b":" + d[b"cnonce"] + b":" + qop + b":" + ha2).hexdigest().encode()
     if d[b"response"] != want:
-        raise Reject("response-value differs from RFC 2831 §2.1.2.1")
+        raise Reject("response: response-value differs from RFC 2831 §2.1.2.1")
 
 
 def quote(v):
@@ -493,11 +493,18 @@ def gen_scraminit_edge(rng):
     return "scraminit %s %d %s %s %s %s" % (variant, secured, hx(ty), hx(cbd), hx(jid), hx(rnd))
 
 
-def gen_digest(rng, op=None, shape=None):
+def gen_digest(rng, op=None, shape=None, backslash_user=False):
     op = op or rng.choice(["digest", "digestx"])
-    shape = shape or rng.choice(["std", "std", "norealm", "emptyrealm", "tworealms", "noqop", "extras"])
+    shape = shape or rng.choice(["std", "std", "norealm", "emptyrealm", "tworealms", "noqop", "extras", "qoplist",
+                                 "nocharset"])
     text, _ = mk_digest_challenge(rng, shape)
-    jid = rand_jid(rng)
+    node = rand_node(rng)
+    if backslash_user:
+        k = rng.randrange(0, len(node) + 1)
+        node = node[:k] + b"\\" + node[k:]
+    else:
+        node = node.replace(b"\\", b"-")
+    jid = rand_jid(rng, node=node)
     return "%s %s %s %s %s" % (op, hx(b64(text)), hx(jid), hx(rand_pass(rng)), hx(rbytes(rng, 6)))
 
 
@@ -590,9 +597,11 @@ def generate(rng, tier, override=0):
     for kind in BAD_DIGEST:
         for _ in range((2 if not override else 1) * scale):
             risky.append(gen_bad_digest(rng, kind))
-    for shape in ["qoplist", "nocharset", "escaped"]:
-        for _ in range(2 * scale):
-            risky.append(gen_digest(rng, shape=shape))
+    # separate stream: RFC 2831 quoted-pair needed (a backslash in the user name, '"' or a backslash in
+    # nonce / realm of the challenge); failures here carry the kind `digest-quoted-pair`
+    for _ in range(3 * scale):
+        risky.append(gen_digest(rng, shape="escaped"))
+        risky.append(gen_digest(rng, backslash_user=True))
     for _ in range(4 * scale):
         a = rng.choice(["sha1", "sha256", "sha512"])
         risky.append("hi %s %s %s %d" % (a, hx(rbytes(rng, 8)), hx(rbytes(rng, rng.choice([125, 126, 128, 200, 4096]))), 1))
@@ -614,21 +623,21 @@ def check_scraminit(variant, secured, ty, cbd, jid, rnd, fields):
     msg, cbf, off = unhx(fields[0]), unhx(fields[1]), int(fields[2])
     header, flag, cbname, user, cnonce, bare = parse_client_first(msg)
     node = jid_node(jid)
-    expect(user == node, "wellformed: n= does not decode to the JID node")
-    expect(cnonce == hex_upper(rnd_take(rnd, 16)), "client nonce is not HEX(random bytes)")
+    expect(user == node, "scram-saslname: n= does not decode to the JID node")
+    expect(cnonce == hex_upper(rnd_take(rnd, 16)), "scram-nonce: client nonce is not HEX(random bytes)")
     if plus:
-        expect(flag == b"p" and cbname == ty, "gs2-cbind-flag must be p=<binding type> for -PLUS")
+        expect(flag == b"p" and cbname == ty, "scram-gs2: gs2-cbind-flag must be p=<binding type> for -PLUS")
         cbind = header + cbd
     elif secured:
-        expect(flag == b"y", "gs2-cbind-flag must be y (TLS, no -PLUS)")
+        expect(flag == b"y", "scram-gs2: gs2-cbind-flag must be y (TLS, no -PLUS)")
         cbind = header
     else:
-        expect(flag == b"n", "gs2-cbind-flag must be n (no TLS)")
+        expect(flag == b"n", "scram-gs2: gs2-cbind-flag must be n (no TLS)")
         cbind = header
-    expect(cbf == b64(cbind), "channel-binding field is not base64(gs2-header || data)")
+    expect(cbf == b64(cbind), "scram-cbind: channel-binding field is not base64(gs2-header || data)")
     if not plus:
-        expect(cbf == (b"eSws" if secured else b"biws"), "c= must be biws / eSws")
-    expect(off == len(header) and msg[off:] == bare, "first_bare does not point at client-first-message-bare")
+        expect(cbf == (b"eSws" if secured else b"biws"), "scram-cbind: c= must be biws / eSws")
+    expect(off == len(header) and msg[off:] == bare, "scram-firstbare: first_bare does not point at client-first-message-bare")
     return header, bare, cnonce, cbind
 
 
@@ -679,13 +688,13 @@ def oracle_op(op, out):
                 meta = None
         if text is None or (meta is not None and b"nonce" not in meta):
             # undecodable, or an RFC 2831 directive list without nonce: nothing to answer with
-            return None if out == nullword else "digest: unusable challenge was answered: " + out[:60]
+            return None if out == nullword else "digest-unusable: unusable challenge was answered: " + out[:60]
         if meta is None:
             # decodable but not an RFC 2831 directive list: refusing is right, lenient parsing is
             # tolerated (that it does not crash is established by the run itself)
             return None
         if not out.startswith(okword):
-            return "digest: well-formed challenge refused: " + out[:40]
+            return "digest-refused: well-formed challenge refused: " + out[:40]
         try:
             resp = base64.b64decode(unhx(out[len(okword):]), validate=True)
             qops = [q.strip() for q in meta[b"qop"][0].split(b",")] if b"qop" in meta else None
@@ -693,9 +702,9 @@ def oracle_op(op, out):
                           meta[b"nonce"][0], qops, meta.get(b"charset", [b""])[0] == b"utf-8",
                           hex_upper(rnd_take(rnd, 6)))
         except Reject as e:
-            return "digest: " + str(e)
+            return digest_kind(node, meta, str(e).split(":")[0]) + ": " + str(e)
         except Exception as e:  # noqa: BLE001
-            return "digest: response not parseable (%s)" % type(e).__name__
+            return digest_kind(node, meta, "grammar") + ": response not parseable (%s)" % type(e).__name__
         return None
     if k in ("scraminit", "scramx"):
         variant, secured = t[1], int(t[2])
@@ -708,13 +717,13 @@ def oracle_op(op, out):
         should = init_should_succeed(variant, secured, ty, cbd, jid)
         f = out.split(" ")
         if not should:
-            return None if out == "= fail" else "scraminit: should have failed"
+            return None if out == "= fail" else "scram-init: should have failed"
         if f[:2] != ["=", "ok"]:
-            return "scraminit: failed on valid input"
+            return "scram-init: failed on valid input"
         try:
             header, bare, cnonce, cbind = check_scraminit(variant, secured, ty, cbd, jid, rnd, f[2:5])
         except Reject as e:
-            return "scraminit: " + str(e)
+            return str(e)
         if not x:
             return None
         sf = None
@@ -732,20 +741,20 @@ def oracle_op(op, out):
             return None
         snonce, salt, it = parsed
         if not snonce.startswith(cnonce) or snonce == cnonce:
-            if f[5:6] == ["memerr"]:
-                return None
-            return "scram-nonce-prefix: server nonce does not extend the client nonce but the client answered"
+            # RFC 5802 §5.1 wants the client to abort; the property only speaks about what the client
+            # SENDS, so an answer is not flagged (out of scope, see Props/C07.lean) but not verified either
+            return None
         if it >= 2 ** 32:
             return None
         if f[5:6] != ["resp"]:
-            return "scram: well-formed server-first refused"
+            return "scram-refused: well-formed server-first refused"
         try:
             cf = base64.b64decode(unhx(f[6]), validate=True)
             scram_verify(hname, bare, sf, cf, pw, salt, it, snonce, cbind)
         except Reject as e:
-            return "scram: " + str(e)
+            return str(e)
         except Exception as e:  # noqa: BLE001
-            return "scram: client-final not parseable (%s)" % type(e).__name__
+            return "scram-final-grammar: client-final not parseable (%s)" % type(e).__name__
         return None
     if k == "scram":
         variant = t[1]
@@ -756,17 +765,17 @@ def oracle_op(op, out):
             return None
         snonce, salt, it = parsed
         if not out.startswith("= ok "):
-            return "scram: well-formed server-first refused"
+            return "scram-refused: well-formed server-first refused"
         cf = base64.b64decode(unhx(out[5:]))
         want_prefix = b"c=" + cb + b",r=" + snonce
         if not cf.startswith(want_prefix + b",p="):
-            return "scram: client-final-without-proof is not c=<cb>,r=<nonce>"
+            return "scram-final-grammar: client-final-without-proof is not c=<cb>,r=<nonce>"
         auth = fb + b"," + sf + b"," + want_prefix
         salted = hashlib.pbkdf2_hmac(hname, pw, salt, it)
         ck = pyhmac.new(salted, b"Client Key", hname).digest()
         sig = pyhmac.new(hashlib.new(hname, ck).digest(), auth, hname).digest()
         if cf != want_prefix + b",p=" + b64(xor(ck, sig)):
-            return "scram: proof differs from ClientKey xor ClientSignature"
+            return "scram-proof: proof differs from ClientKey xor ClientSignature"
         return None
     if k in ("hi", "ckey"):
         hname, ds = ALGS[t[1]]
@@ -819,6 +828,14 @@ def oracle_op(op, out):
         want = hex_upper(rnd_take(rnd, ln // 2))[:ln - 1]
         return None if out == "= %s %d" % (hx(want), ln // 2) else "nonce: not upper-case hex of the random bytes"
     return None
+
+
+def digest_kind(node, meta, what):
+    """failures on inputs that need RFC 2831 quoted-pair handling get their own signature"""
+    vals = [node] + meta.get(b"nonce", []) + meta.get(b"realm", [])
+    if any(b'"' in v or b"\\" in v for v in vals):
+        return "digest-quoted-pair"
+    return "digest-" + what
 
 
 def parse_digest_directives_multi(s):
@@ -895,7 +912,7 @@ def signature(case, i, what):
     elif w[0] == "diff":
         kind = "diff"
     else:
-        kind = re.sub(r"[^A-Za-z0-9=_.-]+", "-", what.split("|")[0].strip())[:70]
+        kind = re.sub(r"[^A-Za-z0-9=_.-]+", "-", what.split(":")[0].strip())[:40]
     return "%s:%s:%s" % (ID, k, kind)
 
 
